@@ -185,7 +185,7 @@ def observe(ns, live, model, I, names=None):
     return obs
 
 
-def lattice_edit(rng, model, I, kinds=("ram", "cpu", "starts", "fixed", "ds", "dur", "type", "type", "t")):
+def lattice_edit(rng, model, I, kinds=("ram", "cpu", "starts", "fixed", "ds", "dur", "type", "type", "t", "overload", "util")):
     """one edit that keeps the model on the lattice: returns (edit for efx.apply_edit_*, new I)"""
     import copy
     I2 = copy.deepcopy(I)
@@ -218,6 +218,18 @@ def lattice_edit(rng, model, I, kinds=("ram", "cpu", "starts", "fixed", "ds", "d
         s = rng.choice(sorted(I["t"]))
         I2["t"][s] = rng.choice([x for x in (0, 15, 30, 45, 60, 75, 90, 150) if x != I["t"][s]])
         return ("input", s, "user_time_spent", [I2["t"][s], "min"]), I2
+    if kind == "util":      # the share of an instance that may be used
+        v = rng.choice(sorted(I["sv"]))
+        I2["sv"][v]["util"] = 50 if I["sv"][v]["util"] == 100 else 100
+        return ("input", v, "server_utilization_rate", [I2["sv"][v]["util"] / 100, "dimensionless"]), I2
+    if kind == "burst":     # traffic x 50: fixed instance counts are exceeded late in the recomputation (then refused)
+        u = rng.choice(sorted(I["up"]))
+        I2["up"][u]["vals"] = [x * 50 for x in I["up"][u]["vals"]]
+        return ("opt", u, "starts", [I2["up"][u]["vals"], model[u]["opt"]["start"]]), I2
+    if kind == "overload":  # a base consumption above what an instance offers: must be refused (and change nothing)
+        v = rng.choice(sorted(I["sv"]))
+        I2["sv"][v]["baseram"] = I["sv"][v]["ram"] * I["sv"][v]["util"] // 100 + 10
+        return ("input", v, "base_ram_consumption", [I2["sv"][v]["baseram"] * 100, "MB"]), I2
     if kind == "type":      # the sizing rule of a server
         cands = [v for v in sorted(I["sv"]) if not I["sv"][v]["fixed"]]
         if not cands:
